@@ -193,7 +193,10 @@ def run_c14_ab(case):
     except Exception as e:
         if not core.raised_in_library(e):
             raise
-        raise Aborted(f'library raised {type(e).__name__}: {e}', stats)
+        v = Violation('C14.x', f'exception escaped one of the twin runs: {type(e).__name__}: {e}',
+                      extra={'kind': 'exception', 'exc': type(e).__name__})
+        v.stats = stats
+        raise v
     stats['dispatches'] = st1['dispatches'] + st2['dispatches']
     stats['sim_time'] = st1['sim_time'] + st2['sim_time']
     stats['twin_pairs'] = 1
